@@ -80,6 +80,9 @@ class CouponList : public HllSketchImpl<A> {
 
     virtual A getAllocator() const;
 
+    // for deserialization: the stored count must agree with the coupons actually present
+    void checkCouponCount() const;
+
     uint32_t couponCount_;
     bool oooFlag_;
     vector_int coupons_;
